@@ -74,11 +74,36 @@ noncomputable def core (N r1 r2 y x2 : ℝ) : ℝ :=
   else
     (Real.sqrt (x2 * (N - (r1 - r2) * (r1 - r2)) * (1 / N)) + y * (r1 - r2)) * (1 / N) - r1
 
-theorem roundedCone_eq_core (a b : V3 ℝ) (r1 r2 : ℝ) (p : V3 ℝ) :
+/-- the regenerated definition: the nested-balls early return, then the closure body -/
+theorem roundedCone_unfold (a b : V3 ℝ) (r1 r2 : ℝ) :
+    Gen.sdf.RoundedCone a b r1 r2 =
+      if (b.Sub a).Dot (b.Sub a) - (r1 - r2) * (r1 - r2) ≤ 0 then
+        (if r2 ≤ r1 then Gen.sdf.Sphere a r1 else Gen.sdf.Sphere b r2)
+      else fun p =>
+        core ((b.Sub a).Dot (b.Sub a)) r1 r2 ((p.Sub a).Dot (b.Sub a))
+          (Gen.sdf.dot2 (((p.Sub a).Scale ((b.Sub a).Dot (b.Sub a))).Sub ((b.Sub a).Scale ((p.Sub a).Dot (b.Sub a))))) := by
+  simp only [Gen.sdf.RoundedCone, core, decide_eq_true_eq, Nat.cast_one, Nat.cast_zero, RS.sqrt_eq]
+
+/-- the source's test `a2 ≤ 0` is exactly the negation of the guard `|r1 − r2| < |b − a|` -/
+theorem a2_nonpos_iff (a b : V3 ℝ) (r1 r2 : ℝ) :
+    (b.Sub a).Dot (b.Sub a) - (r1 - r2) * (r1 - r2) ≤ 0 ↔ ¬ |r1 - r2| < a.Distance b := by
+  have hN : 0 ≤ (b.Sub a).Dot (b.Sub a) := by
+    simp only [V3.Dot]
+    nlinarith [mul_self_nonneg (b.Sub a).x, mul_self_nonneg (b.Sub a).y, mul_self_nonneg (b.Sub a).z]
+  have hL : a.Distance b = Real.sqrt ((b.Sub a).Dot (b.Sub a)) := rfl
+  rw [hL, not_lt, Real.sqrt_le_left (abs_nonneg _), sq_abs]
+  constructor <;> intro h <;> nlinarith
+
+theorem roundedCone_eq_core (a b : V3 ℝ) (r1 r2 : ℝ) (hg : |r1 - r2| < a.Distance b) (p : V3 ℝ) :
     Gen.sdf.RoundedCone a b r1 r2 p =
       core ((b.Sub a).Dot (b.Sub a)) r1 r2 ((p.Sub a).Dot (b.Sub a))
         (Gen.sdf.dot2 (((p.Sub a).Scale ((b.Sub a).Dot (b.Sub a))).Sub ((b.Sub a).Scale ((p.Sub a).Dot (b.Sub a))))) := by
-  simp only [Gen.sdf.RoundedCone, core, decide_eq_true_eq, Nat.cast_one, RS.sqrt_eq]
+  rw [roundedCone_unfold, if_neg (by rw [a2_nonpos_iff]; exact not_not.mpr hg)]
+
+/-- nested or internally tangent balls: the early return of the source -/
+theorem roundedCone_nested (a b : V3 ℝ) (r1 r2 : ℝ) (hg : ¬ |r1 - r2| < a.Distance b) :
+    Gen.sdf.RoundedCone a b r1 r2 = if r2 ≤ r1 then Gen.sdf.Sphere a r1 else Gen.sdf.Sphere b r2 := by
+  rw [roundedCone_unfold, if_pos ((a2_nonpos_iff a b r1 r2).mpr hg)]
 
 /-! ### the closure body in profile coordinates -/
 
@@ -299,7 +324,7 @@ theorem roundedCone_eq_prof (a b : V3 ℝ) (r1 r2 : ℝ) (hg : |r1 - r2| < a.Dis
       prof (a.Distance b) ((r1 - r2) / a.Distance b) (Real.sqrt (1 - ((r1 - r2) / a.Distance b) ^ 2)) r1 r2
         (axial a b p) (radial a b p) := by
   obtain ⟨hL, hc, hsc, hrr⟩ := guard_facts hg
-  rw [roundedCone_eq_core, x2_eq_radial a b p hL, ← axial_mul a b p hL, ← distance_mul_self a b]
+  rw [roundedCone_eq_core a b r1 r2 hg, x2_eq_radial a b p hL, ← axial_mul a b p hL, ← distance_mul_self a b]
   exact core_eq_prof hL hc hsc (radial_nonneg a b p) hrr
 
 /-- the distance from `p` to the axis point at parameter `t`, in cylindrical coordinates -/
@@ -314,7 +339,7 @@ theorem distance_axis_point (a b p : V3 ℝ) (hL : 0 < a.Distance b) (t : ℝ) :
   congr 1; ring
 
 /-- lower bound: the field is below the gap to every ball `B(a + t(b − a), r1 + t(r2 − r1))`, `t ∈ [0, 1]` -/
-theorem roundedCone_le_ball (a b : V3 ℝ) (r1 r2 : ℝ) (hg : |r1 - r2| < a.Distance b) (p : V3 ℝ)
+theorem roundedCone_le_ball_guard (a b : V3 ℝ) (r1 r2 : ℝ) (hg : |r1 - r2| < a.Distance b) (p : V3 ℝ)
     {t : ℝ} (h0 : 0 ≤ t) (h1 : t ≤ 1) :
     Gen.sdf.RoundedCone a b r1 r2 p ≤ p.Distance (a.Add ((b.Sub a).Scale t)) - (r1 + t * (r2 - r1)) := by
   obtain ⟨hL, hc, hsc, hrr⟩ := guard_facts hg
@@ -327,7 +352,7 @@ theorem roundedCone_le_ball (a b : V3 ℝ) (r1 r2 : ℝ) (hg : |r1 - r2| < a.Dis
   rwa [e] at this
 
 /-- the bound is attained by some ball of the family -/
-theorem roundedCone_attained (a b : V3 ℝ) (r1 r2 : ℝ) (hg : |r1 - r2| < a.Distance b) (p : V3 ℝ) :
+theorem roundedCone_attained_guard (a b : V3 ℝ) (r1 r2 : ℝ) (hg : |r1 - r2| < a.Distance b) (p : V3 ℝ) :
     ∃ t, 0 ≤ t ∧ t ≤ 1 ∧
       Gen.sdf.RoundedCone a b r1 r2 p = p.Distance (a.Add ((b.Sub a).Scale t)) - (r1 + t * (r2 - r1)) := by
   obtain ⟨hL, hc, hsc, hrr⟩ := guard_facts hg
@@ -339,6 +364,63 @@ theorem roundedCone_attained (a b : V3 ℝ) (r1 r2 : ℝ) (hg : |r1 - r2| < a.Di
   have e2 : r1 - τ * ((r1 - r2) / a.Distance b) = r1 + τ / a.Distance b * (r2 - r1) := by
     field_simp; ring
   rw [e1, e2]
+
+/-! ### all parameters: the nested case is the larger ball, which is again the least ball gap -/
+
+theorem axis_point_zero (a b : V3 ℝ) : a.Add ((b.Sub a).Scale 0) = a := by
+  ext <;> simp [V3.Add, V3.Scale]
+
+theorem axis_point_one (a b : V3 ℝ) : a.Add ((b.Sub a).Scale 1) = b := by
+  ext <;> simp [V3.Add, V3.Sub, V3.Scale]
+
+theorem distance_axis_a (a b : V3 ℝ) {t : ℝ} (h0 : 0 ≤ t) :
+    (a.Add ((b.Sub a).Scale t)).Distance a = t * a.Distance b := by
+  rw [← dist_toE, toE_add, toE_scale, toE_sub, add_sub_cancel_left, norm_smul, Real.norm_eq_abs,
+    abs_of_nonneg h0, dist_toE, V3.distance_comm b a]
+
+theorem distance_axis_b (a b : V3 ℝ) {t : ℝ} (h1 : t ≤ 1) :
+    (a.Add ((b.Sub a).Scale t)).Distance b = (1 - t) * a.Distance b := by
+  rw [← dist_toE, toE_add, toE_scale, toE_sub]
+  have : toE a + t • (toE b - toE a) - toE b = (1 - t) • (toE a - toE b) := by module
+  rw [this, norm_smul, Real.norm_eq_abs, abs_of_nonneg (by linarith), dist_toE]
+
+theorem sphere_apply (c : V3 ℝ) (r : ℝ) (p : V3 ℝ) : Gen.sdf.Sphere c r p = p.Distance c - r := rfl
+
+/-- nested balls: the larger ball's gap is below every ball gap of the family -/
+theorem nested_le_ball (a b : V3 ℝ) (r1 r2 : ℝ) (hg : ¬ |r1 - r2| < a.Distance b) (p : V3 ℝ)
+    {t : ℝ} (h0 : 0 ≤ t) (h1 : t ≤ 1) :
+    (if r2 ≤ r1 then Gen.sdf.Sphere a r1 else Gen.sdf.Sphere b r2) p
+      ≤ p.Distance (a.Add ((b.Sub a).Scale t)) - (r1 + t * (r2 - r1)) := by
+  have hg' := not_lt.mp hg
+  split_ifs with h
+  · rw [sphere_apply]
+    have tri := V3.distance_triangle p (a.Add ((b.Sub a).Scale t)) a
+    rw [distance_axis_a a b h0] at tri
+    rw [abs_of_nonneg (by linarith)] at hg'
+    nlinarith [mul_le_mul_of_nonneg_left hg' h0]
+  · rw [sphere_apply]
+    have tri := V3.distance_triangle p (a.Add ((b.Sub a).Scale t)) b
+    rw [distance_axis_b a b h1] at tri
+    rw [abs_of_neg (by linarith)] at hg'
+    nlinarith [mul_le_mul_of_nonneg_left hg' (sub_nonneg.mpr h1)]
+
+/-- lower bound, ALL parameters -/
+theorem roundedCone_le_ball (a b : V3 ℝ) (r1 r2 : ℝ) (p : V3 ℝ) {t : ℝ} (h0 : 0 ≤ t) (h1 : t ≤ 1) :
+    Gen.sdf.RoundedCone a b r1 r2 p ≤ p.Distance (a.Add ((b.Sub a).Scale t)) - (r1 + t * (r2 - r1)) := by
+  by_cases hg : |r1 - r2| < a.Distance b
+  · exact roundedCone_le_ball_guard a b r1 r2 hg p h0 h1
+  · rw [roundedCone_nested a b r1 r2 hg]; exact nested_le_ball a b r1 r2 hg p h0 h1
+
+/-- attained, ALL parameters (nested case: at `t = 0` or `t = 1`) -/
+theorem roundedCone_attained (a b : V3 ℝ) (r1 r2 : ℝ) (p : V3 ℝ) :
+    ∃ t, 0 ≤ t ∧ t ≤ 1 ∧
+      Gen.sdf.RoundedCone a b r1 r2 p = p.Distance (a.Add ((b.Sub a).Scale t)) - (r1 + t * (r2 - r1)) := by
+  by_cases hg : |r1 - r2| < a.Distance b
+  · exact roundedCone_attained_guard a b r1 r2 hg p
+  · rw [roundedCone_nested a b r1 r2 hg]
+    split_ifs with h
+    · exact ⟨0, le_rfl, zero_le_one, by rw [axis_point_zero, sphere_apply]; ring⟩
+    · exact ⟨1, zero_le_one, le_rfl, by rw [axis_point_one, sphere_apply]; ring⟩
 
 end Cone
 end PolyVerif
